@@ -52,6 +52,7 @@ structure Good (interp : Interp V) (st : BState V) (vals : List V) : Prop where
   rlt    : ∀ n ∈ st.nodes, ∀ r ∈ (st.recOf n).refs, r.src < n
   sorted : st.nodes.Pairwise (· < ·)
   ninit  : ∀ n ∈ st.nodes, st.init n = none
+  norec  : ∀ n, n ∉ st.nodes → (st.recOf n).refs = []      -- only recorded nodes have a record
   sees   : Sees st (den (st.cfg interp)) vals
 
 end VM
